@@ -449,6 +449,34 @@ def gen_cases(rnd, count):
                       'sig': sig(kind, t0, len(f['key_id']), len(f['secret']), len(f['region']), bclass,
                                  zlib.crc32(line.encode())),
                       'nt': True, 'tclass': tclass, 'bclass': bclass, 'tick': f['tick']})
+    # Histories: consecutive calls in one process with the same secret on the
+    # same day whose (region, service) pairs are different splits of one
+    # string, or which differ in one field only - a result must not depend on
+    # what an earlier call was made with.
+    for _ in range(max(2, count // 100)):
+        t0, tclass = rand_time(rnd)
+        secret = ''.join(rnd.choice(PRINTABLE) for _ in range(rnd.choice([0, 1, 40, 40, rand_len(rnd)])))
+        key_id = rand_unres(rnd)
+        rs = rnd.choice(['us-east-1sns', 'eu-west-1email', rand_unres(rnd) + rand_unres(rnd) + 'ab'])
+        cuts = sorted(set([0, len(rs), rnd.randrange(0, len(rs) + 1), rnd.randrange(0, len(rs) + 1),
+                           max(0, len(rs) - 3), min(len(rs), 9)]))
+        rnd.shuffle(cuts)
+        for cut in cuts:
+            f = {'t0': t0, 'tick': 0, 'key_id': key_id, 'secret': secret, 'region': rs[:cut], 'svc': rs[cut:]}
+            f['body'], f['nlen'], bclass = rand_body(rnd)
+            line = make_line('svc', f)
+            cases.append({'kind': 'svc', 'line': line, 'expect': '',
+                          'sig': sig('svc-split', t0, cut, len(rs), zlib.crc32(line.encode())),
+                          'nt': True, 'tclass': tclass, 'bclass': bclass, 'tick': 0})
+            if rnd.random() < 0.5:
+                # a DynamoDB / S3 call with the same secret and day in between
+                g = {'t0': t0, 'tick': 0, 'key_id': key_id, 'secret': secret, 'region': rs[:cut] or 'x',
+                     'op': 'GetItem'}
+                g['body'], g['nlen'], bclass = rand_body(rnd)
+                line = make_line('ddb', g)
+                cases.append({'kind': 'ddb', 'line': line, 'expect': '',
+                              'sig': sig('ddb-split', t0, cut, zlib.crc32(line.encode())),
+                              'nt': True, 'tclass': tclass, 'bclass': bclass, 'tick': 0})
     return cases
 
 
